@@ -1568,9 +1568,35 @@ def _carry_elem_d(ctx, rec, j, k, idx, depth):
     return t
 
 
+class WhileRecord:
+    """A while loop: cond / body are available as functions on carries; the exit carry is a tuple of fresh
+    uninterpreted values constrained only by `not cond(exit)` (partial correctness; termination is not claimed).
+    Contracts state loop invariants through rec.body / rec.cond (Hoare rule: initiation, consecution, use at exit)."""
+
+    def __init__(self):
+        self.cond = self.body = self.init = self.exit = None
+
+
 @rule("while")
 def _while(ctx, eqn, *args):
-    raise Unsupported("while loop (use the loop rule through lvc.loops)")
+    p = eqn.params
+    cn, bn = p["cond_nconsts"], p["body_nconsts"]
+    cj, cconsts = _closed(p["cond_jaxpr"])
+    bj, bconsts = _closed(p["body_jaxpr"])
+    cargs, bargs, init = list(args[:cn]), list(args[cn:cn + bn]), list(args[cn + bn:])
+    rec = WhileRecord()
+    wid = len(ctx.__dict__.setdefault("whiles", []))
+    ctx.whiles.append(rec)
+    rec.init = init
+    rec.cond = lambda carry: eval_jaxpr(ctx, cj, cconsts, cargs + list(carry))[0]
+    rec.body = lambda carry: eval_jaxpr(ctx, bj, bconsts, bargs + list(carry))
+    outs = []
+    for j, (c, ov) in enumerate(zip(init, eqn.outvars)):
+        shp = ctx.shape(ov.aval.shape)
+        outs.append(fresh_input(f"while{wid}_exit{j}", shp, c.kind, ov.aval.dtype))
+    rec.exit = outs
+    ctx.assume(snot(rec.cond(outs).at(())))
+    return outs
 
 
 # ---- effects ----------------------------------------------------------------------------------
